@@ -54,7 +54,12 @@ var tString = types.Typ[types.String]
 
 // evalBool evaluates a clause; errors make the clause "false" (fail closed for
 // obligations; callers must not assume a clause that failed to evaluate).
-func (e *Env) evalBool(x SExpr) (string, error) {
+func (e *Env) evalBool(x SExpr) (res string, rerr error) {
+	defer func() {
+		if r := recover(); r != nil {
+			res, rerr = "false", fmt.Errorf("internal error while evaluating %s: %v", x.String(), r)
+		}
+	}()
 	e.err = nil
 	v := e.eval(x)
 	if e.err != nil {
@@ -122,6 +127,21 @@ func (e *Env) eval(x SExpr) *Val {
 	case *SIdent:
 		return e.ident(n.Name)
 	case *SUnary:
+		if n.Op == "&" {
+			// address of an escaping local (it lives in the heap of its type)
+			id, ok := n.X.(*SIdent)
+			if !ok || e.fr == nil {
+				return e.fail("& needs the name of a local")
+			}
+			for _, a := range e.fr.allocOrder {
+				if a.Comment == id.Name && a.Heap {
+					if r, ok := e.fr.regs[a]; ok && r.S != "" {
+						return &Val{T: a.Type(), S: r.S}
+					}
+				}
+			}
+			return e.fail("&%s: not an escaping local that is live here", id.Name)
+		}
 		v := e.eval(n.X)
 		if n.Op == "*" {
 			if v.P != nil {
@@ -678,7 +698,7 @@ func (e *Env) call(n *SCall) *Val {
 				return &Val{T: tBool, S: "true"}
 			}
 			qn := fmt.Sprintf("q_um_%d", e.depth)
-			return &Val{T: tBool, S: fmt.Sprintf("(forall ((%s Int)) (! (=> (and (<= 0 %s) (< %s %s)) (and (= (select %s %s) (select %s %s)) (= (select %s %s) (select %s %s)))) :pattern ((select %s %s)) :pattern ((select %s %s))))", qn, qn, qn, e.old.alloc, d1, qn, d0, qn, v1, qn, v0, qn, d1, qn, v1, qn)}
+			return &Val{T: tBool, S: fmt.Sprintf("(forall ((%s Int)) (! (=> (and (< 0 %s) (< %s %s)) (and (= (select %s %s) (select %s %s)) (= (select %s %s) (select %s %s)))) :pattern ((select %s %s)) :pattern ((select %s %s))))", qn, qn, qn, e.old.alloc, d1, qn, d0, qn, v1, qn, v0, qn, d1, qn, v1, qn)}
 		}
 		_, h1 := vc.heap(e.st, t)
 		_, h0 := vc.heap(e.old, t)
@@ -686,7 +706,7 @@ func (e *Env) call(n *SCall) *Val {
 			return &Val{T: tBool, S: "true"}
 		}
 		qn := fmt.Sprintf("q_un_%d", e.depth)
-		return &Val{T: tBool, S: fmt.Sprintf("(forall ((%s Int)) (! (=> (and (<= 0 %s) (< %s %s)) (= (select %s %s) (select %s %s))) :pattern ((select %s %s))))", qn, qn, qn, e.old.alloc, h1, qn, h0, qn, h1, qn)}
+		return &Val{T: tBool, S: fmt.Sprintf("(forall ((%s Int)) (! (=> (and (< 0 %s) (< %s %s)) (= (select %s %s) (select %s %s))) :pattern ((select %s %s))))", qn, qn, qn, e.old.alloc, h1, qn, h0, qn, h1, qn)}
 	case "text":
 		// text(b): the string made of the bytes of b (Go's string(b))
 		if !need(1) {
